@@ -267,16 +267,53 @@ Section Run.
   Qed.
 End Run.
 
-(* the incremental save path (first buffer written around CountingWrite, counted afterwards) is
-   observably the plain pipeline with the previous bytes as first call: same result, same
-   delivered bytes, and the same counter whenever the result is Ok *)
+(* the incremental save path (first buffer written around CountingWrite, counted afterwards and
+   from the file header) is observably the plain pipeline with the previous bytes as first call:
+   same result, same delivered bytes; when the result is Ok the counter is the plain one minus
+   the bytes before the header, i.e. every recorded offset is the true position relative to the
+   first "%PDF-" *)
+Lemma header_offset_from_le b : forall i k, header_offset_from b i = Some k -> (k < i + length b)%nat.
+Proof.
+  induction b as [|x b IH]; intros i k H; [discriminate|].
+  cbn [header_offset_from] in H. destruct (prefixb PDF_HDR (x :: b)).
+  - injection H as <-. cbn [length]. lia.
+  - apply IH in H. cbn [length]. lia.
+Qed.
+
+Lemma header_offset_le b : (header_offset b <= length b)%nat.
+Proof.
+  unfold header_offset. destruct (header_offset_from b 0) as [k|] eqn:E; [|lia].
+  apply header_offset_from_le in E. lia.
+Qed.
+
+Lemma run_cw_count_shift wa calls : forall s n k,
+  let '(r, d, c) := run_cw wa calls {| cw_inner := s; cw_count := n |} in
+  run_cw wa calls {| cw_inner := s; cw_count := n + k |} =
+  (r, d, {| cw_inner := cw_inner c; cw_count := cw_count c + k |}).
+Proof.
+  induction calls as [|b calls IH]; intros s n k.
+  - reflexivity.
+  - cbn [run_cw]. unfold cw_write_all. cbn [cw_inner cw_count].
+    destruct (wa s b) as [[r1 d1] s1]. destruct r1.
+    + specialize (IH s1 (n + N.of_nat (length b)) k).
+      destruct (run_cw wa calls {| cw_inner := s1; cw_count := n + N.of_nat (length b) |}) as [[r2 d2] c2].
+      replace (n + k + N.of_nat (length b)) with (n + N.of_nat (length b) + k) by lia.
+      rewrite IH. reflexivity.
+    + cbn [cw_inner cw_count]. do 2 f_equal. lia.
+Qed.
+
 Theorem run_inc_is_run wa prev calls s :
   rd (run_inc wa prev calls s) = rd (run wa (prev :: calls) s) /\
-  (fst (fst (run_inc wa prev calls s)) = WOk -> run_inc wa prev calls s = run wa (prev :: calls) s).
+  (forall d n, run_inc wa prev calls s = (WOk, d, n) ->
+     run wa (prev :: calls) s = (WOk, d, n + N.of_nat (header_offset prev))).
 Proof.
   unfold run_inc, run, rd. cbn [run_cw]. unfold cw_write_all_after, cw_write_all. cbn [cw_inner cw_count].
   destruct (wa s prev) as [[r1 d1] s1]. destruct r1 as [|e1]; cbn [fst snd].
-  - destruct (run_cw wa calls _) as [[r2 d2] c2]. cbn [fst snd]. auto.
+  - pose proof (header_offset_le prev) as Hle.
+    pose proof (run_cw_count_shift wa calls s1 (0 + N.of_nat (length prev - header_offset prev)) (N.of_nat (header_offset prev))) as Hs.
+    destruct (run_cw wa calls {| cw_inner := s1; cw_count := 0 + N.of_nat (length prev - header_offset prev) |}) as [[r2 d2] c2].
+    replace (0 + N.of_nat (length prev - header_offset prev) + N.of_nat (header_offset prev)) with (0 + N.of_nat (length prev)) in Hs by lia.
+    rewrite Hs. cbn [fst snd cw_count]. split; [reflexivity|]. intros d n H. injection H as -> <- <-. reflexivity.
   - split; [reflexivity | discriminate].
 Qed.
 
